@@ -7,7 +7,9 @@ import PsecModel.Model.Tr31
 `PsecModel/Generated/Tables.lean` is regenerated from `/repo/psec/*.py` on every run (`harness/tables.py`, purely
 syntactic). Each theorem below states that a function of the hand-written model agrees with the regenerated table
 **on every key**, not only on the listed ones, so a table edited in the source (an entry changed, added or removed)
-leaves an obligation that no longer checks. The order of the entries does not matter.
+leaves an obligation that no longer checks. The order of the entries does not matter. Every generated table is an
+`Option`: `none` means the translator did not recognise the table's shape in the source (moved, computed, renamed
+beyond recognition); the theorem about it is then vacuous and the run records the tie as unavailable.
 -/
 namespace Psec.Tables
 open Psec Psec.Generated.Tables
@@ -56,27 +58,33 @@ theorem lookup_agree {β : Type} [DecidableEq β] (f : List Nat → Option β) (
 
 /-! ## `psec.tools._ascii_*` -/
 
-theorem ascii_n_agree : ∀ c, isDigitC c = tools_ascii_n.contains c :=
-  class_agree _ _ (by intro c h; simp [isDigitC]; omega) (by decide +kernel) (by decide +kernel)
+theorem ascii_n_agree : ∀ l, tools_ascii_n = some l → ∀ c, isDigitC c = l.contains c := by
+  intro l h; unfold tools_ascii_n at h; cases h
+  all_goals exact class_agree _ _ (by intro c h; simp [isDigitC]; omega) (by decide +kernel) (by decide +kernel)
 
-theorem ascii_an_agree : ∀ c, isAlnumC c = tools_ascii_an.contains c :=
-  class_agree _ _ (by intro c h; simp [isAlnumC, isDigitC, isUpperC, isLowerC]; omega) (by decide +kernel) (by decide +kernel)
+theorem ascii_an_agree : ∀ l, tools_ascii_an = some l → ∀ c, isAlnumC c = l.contains c := by
+  intro l h; unfold tools_ascii_an at h; cases h
+  all_goals exact class_agree _ _ (by intro c h; simp [isAlnumC, isDigitC, isUpperC, isLowerC]; omega) (by decide +kernel) (by decide +kernel)
 
-theorem ascii_pa_agree : ∀ c, isPrintC c = tools_ascii_pa.contains c :=
-  class_agree _ _ (by intro c h; simp [isPrintC]; omega) (by decide +kernel) (by decide +kernel)
+theorem ascii_pa_agree : ∀ l, tools_ascii_pa = some l → ∀ c, isPrintC c = l.contains c := by
+  intro l h; unfold tools_ascii_pa at h; cases h
+  all_goals exact class_agree _ _ (by intro c h; simp [isPrintC]; omega) (by decide +kernel) (by decide +kernel)
 
-theorem ascii_h_agree : ∀ c, isHexC c = tools_ascii_h.contains c :=
-  class_agree _ _ (by intro c h; simp [isHexC, isDigitC]; omega) (by decide +kernel) (by decide +kernel)
+theorem ascii_h_agree : ∀ l, tools_ascii_h = some l → ∀ c, isHexC c = l.contains c := by
+  intro l h; unfold tools_ascii_h at h; cases h
+  all_goals exact class_agree _ _ (by intro c h; simp [isHexC, isDigitC]; omega) (by decide +kernel) (by decide +kernel)
 
 /-- the four `tools.ascii_*` predicates of the model are "every character is in the source's set" -/
 theorem ascii_predicates (s : PyStr) :
-    asciiNumeric s = s.all tools_ascii_n.contains ∧ asciiAlnum s = s.all tools_ascii_an.contains ∧
-    asciiPrintable s = s.all tools_ascii_pa.contains ∧ asciiHexchar s = s.all tools_ascii_h.contains := by
+    (∀ l, tools_ascii_n = some l → asciiNumeric s = s.all l.contains) ∧
+    (∀ l, tools_ascii_an = some l → asciiAlnum s = s.all l.contains) ∧
+    (∀ l, tools_ascii_pa = some l → asciiPrintable s = s.all l.contains) ∧
+    (∀ l, tools_ascii_h = some l → asciiHexchar s = s.all l.contains) := by
   refine ⟨?_, ?_, ?_, ?_⟩
-  · unfold asciiNumeric; congr 1; funext c; exact ascii_n_agree c
-  · unfold asciiAlnum; congr 1; funext c; exact ascii_an_agree c
-  · unfold asciiPrintable; congr 1; funext c; exact ascii_pa_agree c
-  · unfold asciiHexchar; congr 1; funext c; exact ascii_h_agree c
+  · intro l h; unfold asciiNumeric; congr 1; funext c; exact ascii_n_agree l h c
+  · intro l h; unfold asciiAlnum; congr 1; funext c; exact ascii_an_agree l h c
+  · intro l h; unfold asciiPrintable; congr 1; funext c; exact ascii_pa_agree l h c
+  · intro l h; unfold asciiHexchar; congr 1; funext c; exact ascii_h_agree l h c
 
 /-! ## TR-31 per-version and per-algorithm tables (`Header` and `KeyBlock` carry their own copies) -/
 
@@ -92,14 +100,18 @@ theorem algoBs_out : ∀ v, v ∉ versionKeys → Tr31.algoBs v = none := by
   simp [versionKeys] at h
   simp [Tr31.algoBs, h]
 
-theorem header_mac_len_agree : ∀ v, Tr31.macLen v = header_mac_len.lookup v :=
-  lookup_agree _ _ versionKeys macLen_out (by decide +kernel) (by decide +kernel)
-theorem keyblock_mac_len_agree : ∀ v, Tr31.macLen v = keyblock_mac_len.lookup v :=
-  lookup_agree _ _ versionKeys macLen_out (by decide +kernel) (by decide +kernel)
-theorem header_block_size_agree : ∀ v, Tr31.algoBs v = header_block_size.lookup v :=
-  lookup_agree _ _ versionKeys algoBs_out (by decide +kernel) (by decide +kernel)
-theorem keyblock_block_size_agree : ∀ v, Tr31.algoBs v = keyblock_block_size.lookup v :=
-  lookup_agree _ _ versionKeys algoBs_out (by decide +kernel) (by decide +kernel)
+theorem header_mac_len_agree : ∀ tbl, header_mac_len = some tbl → ∀ v, Tr31.macLen v = tbl.lookup v := by
+  intro tbl h; unfold header_mac_len at h; cases h
+  all_goals exact lookup_agree _ _ versionKeys macLen_out (by decide +kernel) (by decide +kernel)
+theorem keyblock_mac_len_agree : ∀ tbl, keyblock_mac_len = some tbl → ∀ v, Tr31.macLen v = tbl.lookup v := by
+  intro tbl h; unfold keyblock_mac_len at h; cases h
+  all_goals exact lookup_agree _ _ versionKeys macLen_out (by decide +kernel) (by decide +kernel)
+theorem header_block_size_agree : ∀ tbl, header_block_size = some tbl → ∀ v, Tr31.algoBs v = tbl.lookup v := by
+  intro tbl h; unfold header_block_size at h; cases h
+  all_goals exact lookup_agree _ _ versionKeys algoBs_out (by decide +kernel) (by decide +kernel)
+theorem keyblock_block_size_agree : ∀ tbl, keyblock_block_size = some tbl → ∀ v, Tr31.algoBs v = tbl.lookup v := by
+  intro tbl h; unfold keyblock_block_size at h; cases h
+  all_goals exact lookup_agree _ _ versionKeys algoBs_out (by decide +kernel) (by decide +kernel)
 
 def algoKeys : List (List Nat) := [[84], [68], [65]]
 def algoMax? (alg : PyStr) : Option Nat :=
@@ -114,12 +126,15 @@ theorem algoMaxKeyLen_eq (alg : PyStr) (d : Nat) : Tr31.algoMaxKeyLen alg d = (a
     · split <;> rfl
 
 /-- `_algo_id_max_key_len.get(algorithm, default)` -/
-theorem algo_max_key_len_agree (alg : PyStr) (d : Nat) :
-    Tr31.algoMaxKeyLen alg d = (keyblock_algo_max_key_len.lookup alg).getD d := by
-  rw [algoMaxKeyLen_eq]
-  congr 1
-  exact lookup_agree algoMax? _ algoKeys
-    (by intro v h; simp [algoKeys] at h; simp [algoMax?, h]) (by decide +kernel) (by decide +kernel) alg
+theorem algo_max_key_len_agree : ∀ tbl, keyblock_algo_max_key_len = some tbl →
+    ∀ (alg : PyStr) (d : Nat), Tr31.algoMaxKeyLen alg d = (tbl.lookup alg).getD d := by
+  intro tbl h; unfold keyblock_algo_max_key_len at h; cases h
+  all_goals
+    intro alg d
+    rw [algoMaxKeyLen_eq]
+    congr 1
+    exact lookup_agree algoMax? _ algoKeys
+      (by intro v h; simp [algoKeys] at h; simp [algoMax?, h]) (by decide +kernel) (by decide +kernel) alg
 
 /-! ## dispatch by version: which private method serves which version id -/
 
@@ -130,34 +145,38 @@ def unwrapName (v : PyStr) : Option String :=
   if v == [66] then some "_b_unwrap" else if v == [68] then some "_d_unwrap"
   else if v == [65] then some "_c_unwrap" else if v == [67] then some "_c_unwrap" else none
 
-theorem wrap_dispatch_agree : ∀ v, wrapName v = wrap_dispatch.lookup v :=
-  lookup_agree _ _ versionKeys (by intro v h; simp [versionKeys] at h; simp [wrapName, h]) (by decide +kernel) (by decide +kernel)
-theorem unwrap_dispatch_agree : ∀ v, unwrapName v = unwrap_dispatch.lookup v :=
-  lookup_agree _ _ versionKeys (by intro v h; simp [versionKeys] at h; simp [unwrapName, h]) (by decide +kernel) (by decide +kernel)
+theorem wrap_dispatch_agree : ∀ tbl, wrap_dispatch = some tbl → ∀ v, wrapName v = tbl.lookup v := by
+  intro tbl h; unfold wrap_dispatch at h; cases h
+  all_goals exact lookup_agree _ _ versionKeys (by intro v h; simp [versionKeys] at h; simp [wrapName, h]) (by decide +kernel) (by decide +kernel)
+theorem unwrap_dispatch_agree : ∀ tbl, unwrap_dispatch = some tbl → ∀ v, unwrapName v = tbl.lookup v := by
+  intro tbl h; unfold unwrap_dispatch at h; cases h
+  all_goals exact lookup_agree _ _ versionKeys (by intro v h; simp [versionKeys] at h; simp [unwrapName, h]) (by decide +kernel) (by decide +kernel)
 
 /-- the model's dispatch is the dispatch by the source's table: the model routes a version to the binding method the
 source's table names for it -/
-theorem wrapDispatch_by_table (c : Ciphers) (ver : PyStr) (kbpk : Bytes) (hdr : PyStr) (key : Bytes) (extra : Nat) (ent : Bytes)
+theorem wrapDispatch_by_table (tbl : List (List Nat × String)) (htbl : wrap_dispatch = some tbl)
+    (c : Ciphers) (ver : PyStr) (kbpk : Bytes) (hdr : PyStr) (key : Bytes) (extra : Nat) (ent : Bytes)
     (hv : Tr31.versionOk ver = true) :
     Tr31.wrapDispatch c ver kbpk hdr key extra ent =
-      match wrap_dispatch.lookup ver with
+      match tbl.lookup ver with
       | some "_b_wrap" => Tr31.bWrap c kbpk hdr key extra ent
       | some "_d_wrap" => Tr31.dWrap c kbpk hdr key extra ent
       | some "_c_wrap" => Tr31.cWrap c kbpk hdr key extra ent
       | _ => .error (.other "KeyError") := by
-  rw [← wrap_dispatch_agree]
+  rw [← wrap_dispatch_agree tbl htbl]
   simp only [Tr31.versionOk, Bool.or_eq_true, beq_iff_eq] at hv
   rcases hv with ((h | h) | h) | h <;> subst h <;> rfl
 
-theorem unwrapDispatch_by_table (c : Ciphers) (ver : PyStr) (kbpk : Bytes) (hdr : PyStr) (kd mac : Bytes)
+theorem unwrapDispatch_by_table (tbl : List (List Nat × String)) (htbl : unwrap_dispatch = some tbl)
+    (c : Ciphers) (ver : PyStr) (kbpk : Bytes) (hdr : PyStr) (kd mac : Bytes)
     (hv : Tr31.versionOk ver = true) :
     Tr31.unwrapDispatch c ver kbpk hdr kd mac =
-      match unwrap_dispatch.lookup ver with
+      match tbl.lookup ver with
       | some "_b_unwrap" => Tr31.bUnwrap c kbpk hdr kd mac
       | some "_d_unwrap" => Tr31.dUnwrap c kbpk hdr kd mac
       | some "_c_unwrap" => Tr31.cUnwrap c kbpk hdr kd mac
       | _ => .error (.other "KeyError") := by
-  rw [← unwrap_dispatch_agree]
+  rw [← unwrap_dispatch_agree tbl htbl]
   simp only [Tr31.versionOk, Bool.or_eq_true, beq_iff_eq] at hv
   rcases hv with ((h | h) | h) | h <;> subst h <;> rfl
 
@@ -166,23 +185,31 @@ theorem unwrapDispatch_by_table (c : Ciphers) (ver : PyStr) (kbpk : Bytes) (hdr 
 /-- what `str.translate(table)` does to one code point: mapped if listed, unchanged otherwise -/
 def translate1 (tbl : List (Nat × Nat)) (c : Nat) : Nat := (tbl.lookup c).getD c
 
-theorem cvv_translate_agree : ∀ c, Card.isAFlower c = true → translate1 cvv_translate c = c - 49 := by
-  intro c h
+theorem aflower_cases (c : Nat) (h : Card.isAFlower c = true) :
+    c = 97 ∨ c = 98 ∨ c = 99 ∨ c = 100 ∨ c = 101 ∨ c = 102 := by
   simp [Card.isAFlower] at h
-  have : c = 97 ∨ c = 98 ∨ c = 99 ∨ c = 100 ∨ c = 101 ∨ c = 102 := by omega
-  rcases this with h | h | h | h | h | h <;> subst h <;> decide
+  omega
 
-theorem pvv_translate_agree : ∀ c, Card.isAFlower c = true → translate1 pvv_translate c = c - 49 := by
-  intro c h
-  simp [Card.isAFlower] at h
-  have : c = 97 ∨ c = 98 ∨ c = 99 ∨ c = 100 ∨ c = 101 ∨ c = 102 := by omega
-  rcases this with h | h | h | h | h | h <;> subst h <;> decide
+theorem cvv_translate_agree : ∀ tbl, cvv_translate = some tbl →
+    ∀ c, Card.isAFlower c = true → translate1 tbl c = c - 49 := by
+  intro tbl h; unfold cvv_translate at h; cases h
+  all_goals
+    intro c hc
+    rcases aflower_cases c hc with h | h | h | h | h | h <;> subst h <;> decide
 
-/-- the model's second pass is `translate` by the source's table on the letters it selects -/
-theorem decimalize_by_table (hex : PyStr) (n : Nat) :
+theorem pvv_translate_agree : ∀ tbl, pvv_translate = some tbl →
+    ∀ c, Card.isAFlower c = true → translate1 tbl c = c - 49 := by
+  intro tbl h; unfold pvv_translate at h; cases h
+  all_goals
+    intro c hc
+    rcases aflower_cases c hc with h | h | h | h | h | h <;> subst h <;> decide
+
+/-- the model's second pass is `translate` by a table that maps `a..f` as the source's does -/
+theorem decimalize_by (tbl : List (Nat × Nat)) (ht : ∀ c, Card.isAFlower c = true → translate1 tbl c = c - 49)
+    (hex : PyStr) (n : Nat) :
     Card.decimalize hex n =
       (let d := (hex.filter Card.isDecC).take n
-       if d.length < n then d ++ ((hex.filter Card.isAFlower).take (n - d.length)).map (translate1 cvv_translate) else d) := by
+       if d.length < n then d ++ ((hex.filter Card.isAFlower).take (n - d.length)).map (translate1 tbl) else d) := by
   unfold Card.decimalize
   simp only
   split
@@ -190,13 +217,34 @@ theorem decimalize_by_table (hex : PyStr) (n : Nat) :
     apply List.map_congr_left
     intro c hc
     have hc' := (List.mem_filter.mp (List.mem_of_mem_take hc)).2
-    exact (cvv_translate_agree c hc').symm
+    exact (ht c hc').symm
   · rfl
+
+/-- CVV and PVV: the model's second pass is `translate` by the table written in the source -/
+theorem decimalize_by_table (hex : PyStr) (n : Nat) :
+    (∀ tbl, cvv_translate = some tbl → Card.decimalize hex n =
+      (let d := (hex.filter Card.isDecC).take n
+       if d.length < n then d ++ ((hex.filter Card.isAFlower).take (n - d.length)).map (translate1 tbl) else d)) ∧
+    (∀ tbl, pvv_translate = some tbl → Card.decimalize hex n =
+      (let d := (hex.filter Card.isDecC).take n
+       if d.length < n then d ++ ((hex.filter Card.isAFlower).take (n - d.length)).map (translate1 tbl) else d)) :=
+  ⟨fun tbl h => decimalize_by tbl (cvv_translate_agree tbl h) hex n,
+   fun tbl h => decimalize_by tbl (pvv_translate_agree tbl h) hex n⟩
 
 /-- every `str.maketrans` source alphabet in `pin.py` is `0123456789ABCDEF`, i.e. position `v` holds the upper-case hex
 digit of value `v` — which is what lets the model index the conversion table by `hexVal` -/
-theorem ibm_alphabet_agree :
-    ibm_maketrans_from.all (fun a => a.length == 16 && (List.range 16).all (fun v => hexVal (a.getD v 0) == some v && a.getD v 0 == hexDigitU v)) = true := by
-  decide +kernel
+theorem ibm_alphabet_agree : ∀ l, ibm_maketrans_from = some l →
+    l.all (fun a => a.length == 16 && (List.range 16).all (fun v => hexVal (a.getD v 0) == some v && a.getD v 0 == hexDigitU v)) = true := by
+  intro l h; unfold ibm_maketrans_from at h; cases h
+  all_goals decide +kernel
+
+/-! ## non-vacuity on the tree these were written against: every table is recognised -/
+
+/-- how many of the fourteen tables the translator recognised in the source of this run -/
+def tiedCount : Nat :=
+  [tools_ascii_n.isSome, tools_ascii_an.isSome, tools_ascii_pa.isSome, tools_ascii_h.isSome,
+   header_mac_len.isSome, header_block_size.isSome, keyblock_mac_len.isSome, keyblock_block_size.isSome,
+   keyblock_algo_max_key_len.isSome, wrap_dispatch.isSome, unwrap_dispatch.isSome,
+   cvv_translate.isSome, pvv_translate.isSome, ibm_maketrans_from.isSome].count true
 
 end Psec.Tables
